@@ -125,6 +125,8 @@ type Exec struct {
 	extraAssumptions map[string]bool
 	currentLemma string
 	retPos token.Pos
+	pruned int
+	qn     int
 }
 
 type unsupported struct{ msg string }
